@@ -239,7 +239,7 @@ scan_region (const unsigned char *p, size_t n)
 
 /* ------------------------------------------------------------------ interposers */
 static int in_lib;                 /* a library call is running */
-static int ncfe, naux;             /* primitive events of the current call */
+static int ncfe, naux, auxdrop;    /* primitive events of the current call */
 static int req_no, fault_at, fault_at2; /* allocator/mapping request counter and fault schedule */
 static int n_wipes;
 static size_t wiped_bytes;
@@ -849,7 +849,7 @@ tramp (void)
 static void
 run_call (void (*fn) (void))
 {
-  ncfe = 0; naux = 0;
+  ncfe = 0; naux = 0; auxdrop = 0;
   req_no = 0; nled = 0; n_wipes = 0; wiped_bytes = 0; leak_free = leak_unmap = 0; bad_free = 0;
   stack_hits = 0;
   snap_statics ();
@@ -953,6 +953,8 @@ cf_sink (const char *ev, const void *a, size_t al, const void *b, size_t bl, con
           x->al = al; x->bl = bl; x->cl = cl;
           memcpy (x->a, a, al); memcpy (x->b, b, bl); memcpy (x->c, c, cl);
         }
+      else
+        auxdrop++;            /* the recorder is full: the specification then judges the recorded prefix only */
       return;
     }
   if (!cfs_on || !in_lib || ncfe >= MAXCFE || al > 128 || bl > 128 || cl > 64)
@@ -989,7 +991,7 @@ emit_cfs (void)
       jstr_codes (auxe[i].c, auxe[i].cl);
       fprintf (out, "}");
     }
-  fprintf (out, "]");
+  fprintf (out, "],\"auxdrop\":%d", auxdrop);
 }
 
 /* ------------------------------------------------------------------ projections */
